@@ -106,6 +106,9 @@ class FuncSpec:
         self.inline_here = set(d.get('inline', []))
         self.no_inv_ensures = d.get('no_inv_ensures', False)
         self.timeout_ms = d.get('timeout_ms')
+        self.hints = list(d.get('hints', []))
+        # clauses that hold for one typed case only: {case name: [clauses]}
+        self.case_ensures = {k: _clauses(v, props) for k, v in (d.get('case_ensures') or {}).items()}
         # named specification expressions (over the pre-state) evaluated in every counter-model
         self.probes = {k: ast.parse(v.strip(), mode='eval').body for k, v in (d.get('probes') or {}).items()}
 
